@@ -1231,3 +1231,37 @@ def check(tier: str) -> int:
         if not tflags.get(need):
             rep.notes.append(f"generator self-check: tee predicate {need} never reached")
     return rep.finish()
+
+
+def replay(path: str) -> int:
+    """Re-run the case stored in a replay file (evidence/replays/C19_*.json) on the implementation and print
+    what the monitors say:  PYTHONPATH=$VERIF_REPO/src:harness python -c "import c19; c19.replay('<file>')" """
+    d = json.loads(open(path).read())
+    case = d.get("case") or {}
+    if "tie" in case:
+        case = case["case"]
+    if case.get("function") == "tee":
+        enc = case["encoded"]
+        mode, n, ln = enc[1], enc[2], enc[3]
+        src, ops = tuple(enc[4:4 + ln]), enc[4 + ln:]
+        REAL[0] = True
+        install_wrappers()
+        try:
+            with TeeRun(mode, src, n) as r:
+                for i in range(0, len(ops), 2):
+                    if (ops[i], ops[i + 1]) not in r.enabled():
+                        print(f"step {i // 2} {(ops[i], ops[i + 1])} is not enabled on this tree: it behaves differently "
+                              "from the recorded run; draining from here")
+                        break
+                    r.do(ops[i], ops[i + 1])
+                r.quiesce()
+        finally:
+            remove_wrappers()
+            REAL[0] = False
+        print(json.dumps(r.describe()), "\nobservations:", r.outs, "\nmonitor:", r.mon or "silent")
+        return 1 if r.mon else 0
+    c = Case(FUNS[case["function"]], _tuplify(case["args"]), case.get("variant", 0), origin="replay")
+    run_cases([c])
+    hits = monitor(c)
+    print(json.dumps(c.describe()), "\nanyio trace:", c.impl, "\nstdlib:", c.std, "\nmonitor:", hits or "silent")
+    return 1 if hits else 0
